@@ -51,6 +51,8 @@ class Ctx:
         self.cow_fields = {}
         self.writer_trait_fns = []
         self.hoisted = {}
+        self.trait_consts = {}
+        self.impl_consts = {}
 
 
 def attr_name(attr_toks):
